@@ -40,7 +40,7 @@ ASSUMPTIONS = [
 V = [0, 1, 1.0, True, "1", 2, None, [1, 2], {"x": 1}]
 VAL = st.sampled_from(V)
 KEY = st.sampled_from(["a", "b", "n", "l"])
-FILES = st.sampled_from(["f.txt", "g.bin", "sub/h.txt", "sub/deep/i.txt"])
+FILES = st.sampled_from(["f.txt", "g.bin", "sub/h.txt", "sub/deep/i.txt", "notes.txt~", "._hidden", "sub/._cache"])
 BLOB = st.sampled_from(["", "x", "hello\n", "\x00\xff", "0123456789abcdef" * 600])
 DOC = st.dictionaries(st.sampled_from(["x", "y", "foo"]), st.sampled_from([0, 1.5, "s", None, [1, 2], {"y": 1}, True]), max_size=2)
 
@@ -179,6 +179,9 @@ def cases(draw):
     # observe / use every handle afterwards
     for i in range(nh):
         ops.append({"op": "touch_sp", "h": i})
+    for _ in range(draw(st.integers(0, 2))):
+        # in-place changes of payload files afterwards (through any handle incl. the clone's, which is created last)
+        ops.append({"op": draw(st.sampled_from(["write", "append"])), "h": draw(st.integers(0, nh)), "name": draw(FILES), "data": draw(st.sampled_from(["", "y", "tail\n"]))})
     ops.append({"op": "doc_set", "h": draw(st.integers(0, nh - 1)), "k": "after", "v": 1})
     ops.append({"op": "init", "h": draw(st.integers(0, nh - 1))})
     return {"two_projects": True, "ops": ops, "meta": {"payload": payload, "prov": prov, "dest": dest, "edit": edit["op"]}}
@@ -225,6 +228,10 @@ CONSTRUCTED = [
         {"op": "new_init", "p": 0, "sp": {"a": 0}}, {"op": "doc_update", "h": 0, "m": {"x": 1}}, {"op": "touch_sp", "h": 0}, {"op": "pickle", "h": 0},
         {"op": "update_statepoint", "h": 1, "m": {"a": 1}, "overwrite": False}, {"op": "update_statepoint", "h": 1, "m": {"a": 1}, "overwrite": True},
         {"op": "touch_sp", "h": 0}, {"op": "touch_sp", "h": 1}, {"op": "move", "h": 1, "p": 1}, {"op": "clone", "h": 1, "p": 0}]},
+    {"two_projects": True, "meta": {"payload": True, "prov": "sp", "dest": "absent", "edit": "clone"}, "ops": [
+        {"op": "new_init", "p": 0, "sp": {"a": 0}}, {"op": "write", "h": 0, "name": "f.txt", "data": "hello\n"}, {"op": "write", "h": 0, "name": "sub/._cache", "data": "c"},
+        {"op": "write", "h": 0, "name": "notes.txt~", "data": "n"}, {"op": "clone", "h": 0, "p": 1}, {"op": "append", "h": 1, "name": "f.txt", "data": "tail\n"},
+        {"op": "write", "h": 0, "name": "sub/._cache", "data": "changed"}, {"op": "clone", "h": 0, "p": 0}]},
 ]
 
 
